@@ -52,6 +52,27 @@ PROPS = {
         assumptions=["the framework protocol: compute(x) precedes compute_partials/linearize at x (OpenMDAO's run_model -> compute_totals)",
                      "the accumulation-site scan is syntactic (augmented assignments on partials/outputs/inputs/self and on local views of them)"],
     ),
+    "C10": dict(
+        components=["ComputeNodes", "Length", "Transform", "LocalStiff", "LocalStiffPermuted", "LocalStiffTransformed", "CreateRHS",
+                    "FEMSolve", "TotalLoads"],
+        extra_suites=[suites.beam_pipeline_suite],
+        assumptions=["the sparse LU solver returns a solution of the system it is given (contract)",
+                     "multi-element closed-form cantilever values and the tube rotation equivariance are evaluated on the real code by the oracle, not proved"],
+    ),
+    "C02": dict(
+        components=["FEMSolve", "LocalStiffTransformed", "Demux", "MuxForces", "VonMisesWingbox", "FuelLoads", "ConvertVelocity", "RotationalVelocity", "PanelForces"],
+        extra_suites=[suites.beam_pipeline_suite, suites.aero_pipeline_suite],
+        oracle_cases=dict(quick=3, thorough=15),
+        assumptions=["OpenMDAO's assembly of total derivatives and the convergence of its iterative linear solvers are trusted, not modelled",
+                     "component partials are covered by C01"],
+    ),
+    "C12": dict(
+        components=["LoadTransfer", "DisplacementTransfer", "TransformationMatrix", "FEMSolve"],
+        extra_suites=[suites.beam_pipeline_suite, suites.aero_pipeline_suite],
+        oracle_cases=dict(quick=3, thorough=15),
+        assumptions=["convergence of OpenMDAO's nonlinear solvers is runtime behaviour; uniqueness of the consistent state is a hypothesis",
+                     "the rigid limit needs bounded aerodynamic loads (hypothesis)"],
+    ),
     "C05": dict(
         components=["CollocationPoints", "VortexMesh", "EvalVelMtx", "Horseshoe", "VLMGeometry"],
         extra_suites=[suites.aero_pipeline_suite],
